@@ -746,7 +746,8 @@ class PixelAlgorithms(AccessorBase):
             output_core_dims=[["time"]],
             keep_attrs=True,
             dask="parallelized",
-            dask_gufunc_kwargs={"meta": self._obj.data},
+            # the kernel always returns float32
+            dask_gufunc_kwargs={"meta": self._obj.data.astype("float32")},
         )
 
 
